@@ -259,7 +259,7 @@ _MDNS_FUNCS = ["simple_mdns::build_reply", "ResourceRecordManager::{new,add_auth
 reg("C13", [
     M("C13", "key", "mdns_store", "all 49 ordered pairs of names from a pool of 7 names (0..3 labels) over 5 shared symbolic labels of 1-2 bytes: "
       "get_key prefix/equality vs label-wise subdomain/equality, for all label byte values", _MDNS_FUNCS, params={'part': 'key'}),
-    M("C13", "reply", "mdns_store", "11 (quick) / 15 (thorough) store+query scenarios: 0-3 registered records (authoritative/cached; A, SRV, TXT; "
+    M("C13", "reply", "mdns_store", "14 (quick) / 18 (thorough) store+query scenarios: 0-3 registered records (authoritative/cached; A, SRV, TXT; "
       "class IN/CH symbolic) over the name pool incl. a.b vs ab and x vs xy collisions, 0-2 questions (TYPE/ANY x IN/ANY, unicast bit symbolic); "
       "all label bytes, addresses, ports, TTLs, ids symbolic", _MDNS_FUNCS, params={'part': 'reply'}),
 ], [
@@ -267,8 +267,8 @@ reg("C13", [
     "radix_trie::Trie::subtrie is modelled from the crate source: Some only if a node exists at the key (stored key or byte-aligned branch)",
 ])
 reg("C20", [
-    M("C20", "expiry", "mdns_store", "9 (quick) / 14 (thorough) histories of <=3 operations {add-authoritative, add-cached, re-add with other TTL/flush, "
-      "remove, clear} on one record key, TTLs and cache-flush bits symbolic (all 2^32 TTLs), monotone symbolic clock; queried with the 4 filters",
+    M("C20", "expiry", "mdns_store", "11 (quick) / 16 (thorough) histories of <=3 operations {add-authoritative, add-cached, re-add with other TTL/flush, "
+      "remove (the record itself or one with the same owner and an independent address), clear} on one record key, TTLs and cache-flush bits symbolic (all 2^32 TTLs), monotone symbolic clock; queried with the 4 filters",
       _MDNS_FUNCS, params={'part': 'expiry'}),
 ], [
     "the clock is a solver variable: Instant::now() returns an arbitrary non-decreasing instant < 2^61 ns; real sleeping is not modelled",
